@@ -243,14 +243,17 @@ impl Hash for F {
         self.0.hash(h)
     }
 }
+// (de)serialised through serde's 128-bit integer entry points (the same JSON text as a `u32`): element types are free to use
+// them, and code that buffers the `data` array generically (`deserialize_any`) cannot serve them
 impl Serialize for F {
     fn serialize<S: Serializer>(&self, s: S) -> Result<S::Ok, S::Error> {
-        s.serialize_u32(self.0)
+        s.serialize_i128(self.0 as i128)
     }
 }
 impl<'de> Deserialize<'de> for F {
     fn deserialize<D: Deserializer<'de>>(d: D) -> Result<Self, D::Error> {
-        u32::deserialize(d).map(F)
+        let v = i128::deserialize(d)?;
+        u32::try_from(v).map(F).map_err(|_| serde::de::Error::custom("out of range"))
     }
 }
 impl Elem for F {
